@@ -26,6 +26,7 @@ import (
 	"github.com/google/uuid"
 
 	"go.6river.tech/mmmbbb/ent"
+	"go.6river.tech/mmmbbb/ent/snapshot"
 	"go.6river.tech/mmmbbb/ent/topic"
 	"go.6river.tech/mmmbbb/logging"
 )
@@ -73,6 +74,16 @@ func (a *PruneDeletedTopics) Execute(ctx context.Context, tx *ent.Tx) error {
 			Msg("pruning deleted topic")
 	}
 
+	// DeleteTopic removes the snapshots that exist at that time, but a
+	// subscription outlives its topic and can still be snapshotted afterwards;
+	// such a snapshot must not keep the topic row (foreign key) forever
+	if len(ids) != 0 {
+		if _, err := tx.Snapshot.Delete().
+			Where(snapshot.TopicIDIn(ids...)).
+			Exec(ctx); err != nil {
+			return err
+		}
+	}
 	numDeleted, err := tx.Topic.Delete().Where(topic.IDIn(ids...)).Exec(ctx)
 	if err != nil {
 		return err
